@@ -183,6 +183,7 @@ class Shelxfile():
         self.end: bool = False
         self.maxsof: float = 1.0
         self.delete_on_write: set = set()
+        self._included: list = []  # entries spliced in from '+filename' include files: parsed, never written
         self.wavelength: float = 0.0
         self.global_sadi: Optional[int] = None
         self.list: int = 0
@@ -201,7 +202,7 @@ class Shelxfile():
             filename = Path(filename)
         with open(filename, 'w') as f:
             for num, line in enumerate(self._reslist):
-                if num in self.delete_on_write:
+                if num in self.delete_on_write or self._is_included(line):
                     if self.debug:
                         # print('Deleted line {}'.format(num + 1))
                         pass
@@ -231,8 +232,13 @@ class Shelxfile():
             if self.debug or self.verbose:
                 print(f'*** Unable to read file {resfile} ***')
             return
-        self._find_included_files()
-        self.parse_cards()
+        included_line_nums = self._find_included_files()
+        try:
+            self.parse_cards()
+        finally:
+            # The parser replaces entries in place, so the positions still hold. Remember the entries themselves
+            # (not their indices, which any later insertion or deletion in _reslist would invalidate):
+            self._included = [self._reslist[n] for n in sorted(included_line_nums)]
 
     def read_string(self, resfile_string: str):
         """
@@ -315,9 +321,17 @@ class Shelxfile():
         print(e)
         print(f"*** Syntax error found in file {self.resfile}, line {self.error_line_num + 1} ***")
 
-    def _find_included_files(self) -> None:
+    def _is_included(self, item) -> bool:
+        return any(item is x for x in self._included)
+
+    def _find_included_files(self) -> set:
+        """
+        Splices the lines of '+filename' include files into the line list.
+        Returns the line numbers of the spliced lines.
+        """
         # Tracks the file names of included files in order to find recursive inclusion:
         includefiles = []
+        included_line_nums = set()
         for line_num, line in enumerate(self._reslist):
             if line.startswith('+'):
                 try:
@@ -326,8 +340,8 @@ class Shelxfile():
                         # The lines of a '+filename' include file belong to that file, not to the res file: they
                         # are parsed, but not written, otherwise they pile up with every read/write cycle.
                         first, count = line_num + 1, len(file_included_in_includefile)
-                        self.delete_on_write = {n + count if n >= first else n for n in self.delete_on_write}
-                        self.delete_on_write.update(range(first, first + count))
+                        included_line_nums = {n + count if n >= first else n for n in included_line_nums}
+                        included_line_nums.update(range(first, first + count))
                         for line_num_includefile, l in enumerate(file_included_in_includefile):
                             reslist_position = line_num + 1 + line_num_includefile
                             # '+filename' include files are not copied to res file,
@@ -342,6 +356,7 @@ class Shelxfile():
                     if self.debug or self.verbose:
                         print(f'*** CANNOT READ INCLUDE FILE {line} ***')
                     # Not sure if this is a good idea: del reslist[n]
+        return included_line_nums
 
     def _read_included_file(self, includefiles: List[str], line: str):
         include_filename: Path = self.resfile.resolve().parent.joinpath(line[1:])
@@ -828,7 +843,7 @@ class Shelxfile():
         """
         resl = []
         for num, line in enumerate(self._reslist):
-            if num in self.delete_on_write:
+            if num in self.delete_on_write or self._is_included(line):
                 continue
             try:
                 if line == '' and self._reslist[num + 1] == '':
